@@ -87,6 +87,8 @@ def fibre(
     shuffle_sections=True,
     segs=None,
     amp=None,
+    nmatch=0,
+    match_reverse=None,
 ):
     x = make_x(rng, nx, span, irregular)
     nx = x.size
@@ -99,6 +101,27 @@ def fibre(
             T[a : e + 1] = base[:, None] + rng.normal(0, 0.5, nt)[None, :]
         else:
             T[a : e + 1] = bath_T[b][None, :]
+    # matching sections: two disjoint index ranges outside the reference sections with the same temperature
+    matching = []
+    match_ix = []
+    free = [(a, e) for b, a, e in segs if b is None and e - a + 1 >= 2]
+    for _ in range(nmatch):
+        if len(free) < 2:
+            break
+        i1, i2 = sorted(rng.choice(len(free), size=2, replace=False).tolist())
+        (a1, e1), (a2, e2) = free[i1], free[i2]
+        free = [f for k, f in enumerate(free) if k not in (i1, i2)]
+        n = int(min(e1 - a1 + 1, e2 - a2 + 1, rng.integers(2, 5)))
+        rev = bool(rng.random() < 0.5) if match_reverse is None else match_reverse
+        A = np.arange(a1, a1 + n)
+        Bx = np.arange(a2, a2 + n)
+        T[Bx] = T[A][::-1] if rev else T[A]
+        first, second = (slice(float(x[a1]), float(x[a1 + n - 1])), slice(float(x[a2]), float(x[a2 + n - 1])))
+        if rng.random() < 0.5:  # list the downstream stretch first
+            first, second = second, first
+            A, Bx = Bx, A
+        matching.append((first, second, rev))
+        match_ix.append((A.tolist(), (Bx[::-1] if rev else Bx).tolist()))
     gamma = float(rng.uniform(470.0, 495.0))
     dalpha = float(rng.uniform(-8e-5, 8e-5)) * (100.0 / max(span, 1.0)) ** 0.5
     # splices
@@ -169,8 +192,8 @@ def fibre(
         lo = float(x[a]) if rng.random() < 0.5 or a == 0 else float((x[a - 1] + x[a]) / 2)
         hi = float(x[e]) if rng.random() < 0.5 or e == nx - 1 else float((x[e] + x[e + 1]) / 2)
         sections.setdefault(BATHS[b], []).append(slice(lo, hi))
-    return Fibre(ds=ds, sections=sections, T=T, gamma=gamma, double=double, trans_att=tas, truth=truth, var=var,
-                 params={"segs": segs, "nx": nx, "nt": nt, "span": span})
+    return Fibre(ds=ds, sections=sections, T=T, gamma=gamma, double=double, trans_att=tas, truth=truth, var=var, matching=matching,
+                 params={"segs": segs, "nx": nx, "nt": nt, "span": span, "match_ix": match_ix})
 
 
 def small_single(rng):
